@@ -19,14 +19,14 @@ SCORERS = [
 
 
 def setup():
-    global _ready, np, pd, torch, DatasetBuilder, ItemList, RecQuery, TrainingOptions
+    global _ready, np, pd, torch, DatasetBuilder, ItemList, RecQuery, TrainingOptions, Vocabulary
     if _ready:
         return
     common.use_repo()
     import numpy as np
     import pandas as pd
     import torch
-    from lenskit.data import DatasetBuilder, ItemList, RecQuery
+    from lenskit.data import DatasetBuilder, ItemList, RecQuery, Vocabulary
     from lenskit.training import TrainingOptions
 
     torch.set_num_threads(1)
@@ -129,11 +129,161 @@ def make_scorer(spec):
     raise ValueError(s)
 
 
+# ---------------------------------------------------------------------------------------------
+# how a list identifies its items, and the journey it made before it is handed to a scorer
+# ---------------------------------------------------------------------------------------------
+#
+# built:  ids       ItemList(item_ids=...)                                     (no vocabulary)
+#         own-nums  ItemList(item_nums=..., vocabulary=<the dataset's item vocabulary>)   (as candidate selectors do)
+#         own-ids   ItemList(item_ids=..., vocabulary=<the dataset's item vocabulary>)
+#         cat-ids / cat-nums / cat-both   against ANOTHER vocabulary: a catalogue that numbers the items differently
+#         sub-ids   identifiers with the vocabulary of a filtered dataset (lacks some of them)
+# steps:  ids / numbers (accessors that fill the caches), pickle, deepcopy, frame (to_df / from_df), arrow, arrow-nums
+#         (to_arrow(numbers=True) / from_arrow), copy (ItemList(l)), clone, slice (l[:]), take (l[arange(n)])
+
+BUILT = ("ids", "own-nums", "own-ids", "cat-ids", "cat-nums", "cat-both", "sub-ids")
+STEPS = ("ids", "numbers", "pickle", "deepcopy", "frame", "arrow", "arrow-nums", "copy", "clone", "slice", "take")
+PLAIN = {"built": "ids", "steps": []}
+
+
+def effective_built(built, ids, keys):
+    """The construction actually used for `ids` (keys: vocabulary name -> the identifiers it knows): a list cannot be given by
+    number against a vocabulary that lacks one of its items; empty lists are built plainly."""
+    if not built or built == "ids" or not ids:
+        return "ids"
+    which, how = built.split("-")
+    if how in ("nums", "both") and any(i not in keys[which] for i in ids):
+        return "ids" if which == "own" else which + "-ids"
+    return built
+
+
+def plan(built, steps, ids, keys):
+    """[(driver operation, step of Model/C04_repr.v)] for a list built as `built` (effective) that goes through `steps`.
+    A step a caller could not perform is replaced by the nearest one that works: numbers() needs a vocabulary; a data frame /
+    Arrow table with numbers cannot be made when an item has no number in the vocabulary the list was built against
+    (KeyError) -- identifiers only then."""
+    if not ids:
+        return []
+    vocab = built != "ids"
+    full = not vocab or all(i in keys[built.split("-")[0]] for i in ids)
+    nums = vocab and built.split("-")[1] in ("nums", "both")          # numbers are stored
+    out = []
+    for s in steps:
+        if s == "ids":
+            out.append(("ids", "SWarm WarmIds"))
+        elif s == "numbers":
+            if vocab:
+                out.append(("numbers", "SWarm WarmNumbers"))
+                nums = True
+        elif s in ("pickle", "deepcopy"):
+            out.append((s, "STransport TPickle"))
+            nums, vocab = nums or vocab, False
+        elif s in ("frame", "arrow-nums"):
+            if not full and (vocab or nums):      # a negative number would have to be written: KeyError
+                out.append(("frame-ids" if s == "frame" else "arrow", "STransport TArrowIds"))
+                nums = False
+            else:
+                out.append((s, "STransport TFrame" if s == "frame" else "STransport TArrowNums"))
+                nums = nums or vocab
+            vocab = False
+        elif s == "arrow":
+            out.append(("arrow", "STransport TArrowIds"))
+            nums, vocab = False, False
+        elif s in ("copy", "clone", "slice", "take"):
+            out.append((s, "STransport TCopy"))
+        else:
+            raise ValueError(s)
+    return out
+
+
+def travel_tag(pl):
+    """how the list arrives: the last round trip that detached its vocabulary, else copied / as-built"""
+    tags = {"STransport TPickle": "pickled", "STransport TFrame": "frame", "STransport TArrowIds": "arrow", "STransport TArrowNums": "arrow-nums"}
+    last = [tags[m] for _, m in pl if m in tags]
+    return last[-1] if last else ("copied" if any(m == "STransport TCopy" for _, m in pl) else "as-built")
+
+
+def apply_op(il, op):
+    import copy
+    import pickle
+    if op == "ids":
+        il.ids()
+        return il
+    if op == "numbers":
+        il.numbers(missing="negative")
+        return il
+    if op == "pickle":
+        return pickle.loads(pickle.dumps(il))
+    if op == "deepcopy":
+        return copy.deepcopy(il)
+    if op == "frame":
+        return ItemList.from_df(il.to_df())
+    if op == "frame-ids":
+        return ItemList.from_df(il.to_df(numbers=False))
+    if op == "arrow":
+        return ItemList.from_arrow(il.to_arrow())
+    if op == "arrow-nums":
+        return ItemList.from_arrow(il.to_arrow(numbers=True))
+    if op == "copy":
+        return ItemList(il)
+    if op == "clone":
+        return il.clone()
+    if op == "slice":
+        return il[:]
+    if op == "take":
+        return il[np.arange(len(il))]
+    raise ValueError(op)
+
+
+class Env:
+    """the vocabularies of one case: the dataset's own, a catalogue that numbers the items differently, a filtered subset"""
+
+    def __init__(self, case, ds):
+        cat = case.get("catalogue") or {"ids": sorted(set(case["items"]) | {950, 951, 952, 900, 901, 902}), "reorder": True}
+        sub = case.get("subset") or sorted(case["items"])[::2]
+        self.vocab = {"own": ds.items,
+                      "cat": Vocabulary(id_array(cat["ids"]), "item", reorder=bool(cat.get("reorder", True))),
+                      "sub": Vocabulary(id_array(sub), "item")}
+        self.order = {k: [back(i) for i in v.ids().tolist()] for k, v in self.vocab.items()}
+        self.keys = {k: set(v) for k, v in self.order.items()}
+
+    def build(self, ids, prov, ordered=False, idv=None, **fields):
+        """-> (the list, effective construction, plan)"""
+        prov = prov or PLAIN
+        built = effective_built(prov.get("built"), ids, self.keys)
+        if idv is None:
+            idv = id_array(ids)
+        if built == "ids":
+            il = ItemList(item_ids=idv, ordered=bool(ordered), **fields)
+        else:
+            which, how = built.split("-")
+            v = self.vocab[which]
+            kw = {}
+            if how in ("ids", "both"):
+                kw["item_ids"] = idv
+            if how in ("nums", "both"):
+                kw["item_nums"] = v.numbers([iid(i) for i in ids])
+            il = ItemList(vocabulary=v, ordered=bool(ordered), **kw, **fields)
+        pl = plan(built, prov.get("steps", []), ids, self.keys)
+        for op, _ in pl:
+            il = apply_op(il, op)
+        return il, built, pl
+
+    def resolved(self, il):
+        """the numbers a scorer trained on the dataset obtains for the list (read through a copy: the list's caches stay as they are)"""
+        try:
+            ns = ItemList(il).numbers(vocabulary=self.vocab["own"], missing="negative")
+            return [None if n < 0 else int(n) for n in np.asarray(ns).tolist()]
+        except Exception as e:
+            return {"unresolvable": err_kind(e) + ": " + str(e)[:120]}
+
+
 HIST_FORMS = ("f32", "f64", "list", "arrow", "torch")
 
 
-def make_history(q):
+def make_history(q, env=None, prov=None):
     """The history list of a query in the storage form q["hist_form"], with the objects handed to ItemList.
+    `prov` (default: q["hist_prov"]) says how the list identifies its items and which journey it made (see `plan`).
 
     f32 / f64: writable NumPy arrays of that precision (the identifiers are a writable array as well); list: plain Python lists;
     arrow: Arrow arrays (read-only buffers); torch: a single-precision tensor.  q["hist_extra"] adds an integer `timestamp` field.
@@ -170,14 +320,19 @@ def make_history(q):
         assert all(a.flags.writeable for a in raw.values())
     if isinstance(idv, np.ndarray) and not STR_IDS:
         raw["item_id"] = idv
-    return ItemList(item_ids=idv, **fields), raw
+    if env is None:
+        return ItemList(item_ids=idv, **fields), raw, "ids", []
+    il, built, pl = env.build(ids, q.get("hist_prov") if prov is None else prov, idv=idv, **fields)
+    return il, raw, built, pl
 
 
 class Query:
     """One query object, built once and handed to every call of the query (base, repeat, permuted, halves, again)."""
 
-    def __init__(self, q):
-        self.hist, self.raw = (None, {}) if q["history"] is None else make_history(q)
+    def __init__(self, q, env=None, prov=None):
+        self.hist, self.raw, self.built, self.plan = (None, {}, "ids", []) if q["history"] is None else make_history(q, env, prov)
+        # what a scorer of this dataset resolves the history to, before any call
+        self.resolved = None if self.hist is None or env is None else env.resolved(self.hist)
         form = q.get("form", "query")
         if form == "id" and q["user"] is not None and self.hist is None:
             self.obj = uid(q["user"])
@@ -222,14 +377,12 @@ def make_query(q):
     return Query(q).obj
 
 
-def make_cands(ids, extra, ordered, vocab=None):
+def make_cands(ids, extra, ordered, env, prov=None):
     kw = {}
     if extra:
         kw["price"] = np.array([float(i % 7) + 0.5 for i in ids], dtype=np.float64)
         kw["tag"] = np.array([int(i) * 3 for i in ids], dtype=np.int64)
-    if vocab is not None:      # candidates given by number against the dataset's own vocabulary (as candidate selectors do)
-        return ItemList(item_nums=vocab.numbers([iid(i) for i in ids]), vocabulary=vocab, ordered=bool(ordered), **kw)
-    return ItemList(item_ids=id_array(ids), ordered=bool(ordered), **kw)
+    return env.build(ids, prov, ordered=ordered, **kw)
 
 
 def err_kind(e):
@@ -237,6 +390,7 @@ def err_kind(e):
 
 
 def cand_state(cand, extra):
+    cand = ItemList(cand)          # read through a copy: the caller's list keeps the caches it has
     o = {"ids": [back(i) for i in cand.ids().tolist()], "len": len(cand), "ordered": bool(cand.ordered), "scored": cand.scores() is not None,
          "fields": sorted(c for c in cand.to_df(numbers=False).columns if c != "item_id")}
     if extra:
@@ -246,12 +400,17 @@ def cand_state(cand, extra):
     return o
 
 
-def call(scorer, name, query, ids, extra=False, ordered=False, vocab=None, cand=None):
+def call(scorer, name, query, ids, env, extra=False, ordered=False, prov=None, cand=None):
     """One scoring call with the query object `query` (a Query: the same object for every call of one generated query)."""
+    made = None
     if cand is None:
-        cand = make_cands(ids, extra, ordered, vocab)
+        cand, built, pl = made = make_cands(ids, extra, ordered, env, prov)
     before = cand_state(cand, extra)
+    resolved = env.resolved(cand)
     o = _call(scorer, name, query, cand, extra)
+    o["resolved"] = resolved
+    if made is not None:
+        o["built"], o["journey"] = built, [m for _, m in pl]
     # after the call, whatever it returned or raised: the caller's query and candidate list are what was supplied
     try:
         o["query_after"] = query.snapshot()
@@ -304,24 +463,38 @@ def run(case):
         obs["msg"] = str(e)[:200]
         return obs
     obs["train_error"] = None
+    env = Env(case, ds)
+    obs["vocab"] = {k: v for k, v in env.order.items() if k != "own"}
     calls = []
     for q in case["queries"]:
         ids = q["items"]
-        known = set(case["items"])
-        vocab = ds.items if q.get("by_number") and ids and all(i in known for i in ids) else None
-        query = Query(q)           # ONE query object for all six calls
+        prov = cand_prov(q)
+        query = Query(q, env)           # ONE query object for the seven calls made with it
         extra, ordered = q.get("extra", False), q.get("ordered", False)
-        c = {"supplied": query.supplied, "base": call(scorer, name, query, ids, extra=extra, ordered=ordered, vocab=vocab)}
+        c = {"supplied": query.supplied, "hist_built": query.built, "hist_journey": [m for _, m in query.plan], "hist_resolved": query.resolved,
+             "base": call(scorer, name, query, ids, env, extra=extra, ordered=ordered, prov=prov)}
         # the repeated call is handed the very same candidate list object as well
-        c["repeat"] = call(scorer, name, query, ids, extra=extra, ordered=ordered, cand=c["base"]["cand"])
+        c["repeat"] = call(scorer, name, query, ids, env, extra=extra, ordered=ordered, cand=c["base"]["cand"])
+        c["repeat"]["built"], c["repeat"]["journey"] = c["base"]["built"], c["base"]["journey"]
         perm = [ids[j] for j in q["perm"]]
-        c["perm"] = call(scorer, name, query, perm)
+        c["perm"] = call(scorer, name, query, perm, env)
         h = q["split"]
-        c["half_a"] = call(scorer, name, query, ids[:h], vocab=vocab if ids[:h] else None)
-        c["half_b"] = call(scorer, name, query, ids[h:])
-        c["again"] = call(scorer, name, query, ids)          # after the other calls: the model is unchanged
-        for k in ("base", "repeat", "perm", "half_a", "half_b", "again"):
+        c["half_a"] = call(scorer, name, query, ids[:h], env, prov=prov)
+        c["half_b"] = call(scorer, name, query, ids[h:], env)
+        c["again"] = call(scorer, name, query, ids, env)          # after the other calls: the model is unchanged
+        # a FRESH query object with the same content, its history given plainly by identifier, and the candidates by identifier
+        c["fresh"] = call(scorer, name, Query(q, env, PLAIN), ids, env)
+        for k in KINDS + ("fresh",):
             del c[k]["cand"]
         calls.append(c)
     obs["calls"] = calls
     return obs
+
+
+KINDS = ("base", "repeat", "perm", "half_a", "half_b", "again")
+
+
+def cand_prov(q):
+    """provenance of the candidate list of the base / repeat / half_a calls (the other calls are given plain identifiers)"""
+    p = q.get("cand_prov") or PLAIN
+    return {"built": "own-nums" if q.get("by_number") else p.get("built", "ids"), "steps": p.get("steps", [])}
